@@ -23,7 +23,7 @@ from typing import Any, Callable, Iterable
 ROOT = os.path.dirname(os.path.dirname(os.path.abspath(__file__)))
 LEAN_DIR = os.path.join(ROOT, "lean")
 REPO = os.environ.get("VERIF_REPO", "/repo")
-EVIDENCE_DIR = os.path.join(ROOT, "evidence")
+EVIDENCE_DIR = os.environ.get("VERIF_EVIDENCE_DIR") or os.path.join(ROOT, "evidence")  # (mutant runs write elsewhere)
 REPLAY_DIR = os.path.join(ROOT, "replays")
 CORPUS_DIR = os.path.join(ROOT, "corpus")
 KNOWN_FINDINGS = os.path.join(ROOT, "known_findings.json")
